@@ -7,11 +7,17 @@ package internal
 
 import (
 	"bufio"
+	"context"
 	"fmt"
 	"os"
+	"runtime"
 	"strconv"
 	"strings"
+	"sync/atomic"
 	"testing"
+	"time"
+
+	"github.com/Yiling-J/theine-go/internal/clock"
 )
 
 type vrng struct{ s uint64 }
@@ -110,3 +116,67 @@ func b2s(b bool) string {
 	return "0"
 }
 func ss(xs ...string) []string { return xs }
+
+// ---- deterministic store: the harness plays the maintenance goroutines itself
+
+var vnow atomic.Int64
+
+func vsetNow(n int64) {
+	vnow.Store(n)
+	clock.VerifNow.Store(&vnow)
+}
+
+// vtakeover stops the background goroutines of a fresh store (without marking it
+// closed) and installs a fresh context, so that events stay queued until the
+// harness delivers them.
+func vtakeover[K comparable, V any](s *Store[K, V], before int) {
+	s.cancel()
+	for i := 0; runtime.NumGoroutine() > before; i++ {
+		if i > 200000 {
+			panic("verif: background goroutines did not stop")
+		}
+		if i < 100 {
+			runtime.Gosched()
+		} else {
+			time.Sleep(20 * time.Microsecond)
+		}
+	}
+	s.ctx, s.cancel = context.WithCancel(context.Background())
+}
+
+func vnewStore[K comparable, V any](o *StoreOptions[K, V]) *Store[K, V] {
+	before := runtime.NumGoroutine()
+	s := NewStore(o)
+	vtakeover(s, before)
+	return s
+}
+
+// vdrainWrites delivers every queued event in FIFO order through the real sinkWrite.
+func vdrainWrites[K comparable, V any](s *Store[K, V]) int {
+	n := 0
+	for {
+		select {
+		case it := <-s.writeChan:
+			s.policyMu.Lock()
+			if it.code == WAIT {
+				if it.done != nil {
+					close(it.done)
+				}
+			} else {
+				s.sinkWrite(it)
+			}
+			s.policyMu.Unlock()
+			n++
+		default:
+			return n
+		}
+	}
+}
+
+// vtick plays one maintenance tick at the current virtual time.
+func vtick[K comparable, V any](s *Store[K, V]) {
+	s.timerwheel.clock.RefreshNowCache()
+	s.policyMu.Lock()
+	s.timerwheel.advance(0, s.removeEntry)
+	s.policyMu.Unlock()
+}
